@@ -3,9 +3,24 @@ package main
 import (
 	"bytes"
 	"encoding/binary"
-
-	"github.com/tormoder/fit/dyncrc16"
 )
+
+// ownCRC is an independent bit-serial CRC-16/ARC (the generator must not depend on the
+// library's checksum to decide what a valid file is).
+func ownCRC(data []byte) uint16 {
+	var c uint16
+	for _, b := range data {
+		c ^= uint16(b)
+		for i := 0; i < 8; i++ {
+			if c&1 == 1 {
+				c = c>>1 ^ 0xA001
+			} else {
+				c >>= 1
+			}
+		}
+	}
+	return c
+}
 
 // ---- FIT stream builder (independent of the library's encoder) ----
 
@@ -91,12 +106,12 @@ func frame(records []byte, o frameOpts) []byte {
 	if o.hdrSize == 14 {
 		c := uint16(0)
 		if !o.zeroCRC {
-			c = dyncrc16.Checksum(b.Bytes())
+			c = ownCRC(b.Bytes())
 		}
 		binary.Write(&b, binary.LittleEndian, c)
 	}
 	b.Write(records)
-	c := dyncrc16.Checksum(b.Bytes())
+	c := ownCRC(b.Bytes())
 	binary.Write(&b, binary.LittleEndian, c)
 	return b.Bytes()
 }
